@@ -36,6 +36,8 @@ HEAVY_CASES = True
 
 
 def COST(desc):
+    if desc["k"] == "thermalprop" and desc.get("scheme", "").split(":")[0] in ("cmf-midpoint", "vmf", "mu-vmf"):
+        return 100      # the stiff mean-field runs from the maximally entangled state take tens of seconds: start them first
     return 10 if desc["k"] in ("thermalprop", "tree-thermal") else 2
 
 
